@@ -642,3 +642,18 @@ V("c09-eq-handler-in-helper", ["C09", "C07"], "E", SII, '''        try:
 
 
 def open_image(''')])
+_BYLINE = '''
+    def _read_by_line(self, key):
+        rows, *rest = key
+        lines = np.atleast_1d(np.arange(self.shape[0])[rows])
+%s        return np.stack([self.array[(int(line), *rest)] for line in lines], axis=0)
+'''
+_RETRY = '''        with self.lock:
+            try:
+                return self.array[key]
+            except OSError:
+                return self._read_by_line(key)
+'''
+V("c02-fallback-keeps-axis", "C02", "M", XRP, "        with self.lock:\n            return self.array[key]\n", _RETRY + _BYLINE % "", "C02-X7")
+V("c02-eq-fallback-drops-axis", "C02", "E", XRP, "        with self.lock:\n            return self.array[key]\n",
+  _RETRY + _BYLINE % "        if isinstance(rows, int):\n            return self.array[key]\n")
